@@ -15,6 +15,7 @@ from core import (VERIF, REPO, BUILD, GUARD, Report, Inconclusive, tier, seed, b
 
 KANI_TIMEOUT_S = int(os.environ.get("VERIF_KANI_TIMEOUT", "0")) or None
 MEM_LIMIT = 24 * 1024 ** 3
+HARNESS_TIMEOUT_S = int(os.environ.get("VERIF_HARNESS_TIMEOUT", "900"))
 
 
 def _limits():
@@ -67,6 +68,8 @@ def parse_log(text):
             m2 = re.search(r"(\d+) of (\d+) cover properties satisfied", s)
             if m2:
                 h["covers"] = (int(m2.group(1)), int(m2.group(2)))
+        elif "CBMC timed out" in s:
+            h["status"] = "TIMEOUT"
         elif "Status: ERROR" in s or "CBMC failed" in s or "out of memory" in s.lower():
             h["error"] = s
     stubs = re.findall(r"- Stub: (.+)", text)
@@ -79,6 +82,8 @@ def run_chunk(tag, names, stubbing, timeout_s, extra_args=(), verif_dir=VERIF):
            "--target-dir", target, "--exact"]
     if stubbing:
         cmd += ["-Z", "stubbing"]
+    # one slow harness must not take the rest of its chunk with it
+    cmd += ["-Z", "unstable-options", "--harness-timeout", "%ds" % HARNESS_TIMEOUT_S]
     cmd += list(extra_args)
     for n in names:
         cmd += ["--harness", n]
